@@ -170,8 +170,28 @@ func runCheck(prop, tier string, seed int, t0 time.Time) int {
 			real = append(real, o)
 		}
 	}
+	// ---- bounded stand-ins (never counted as proved) ----
+	var boundedEv []map[string]interface{}
+	var boundedFails []boundedResult
+	for _, bs := range loadBounded(prop) {
+		br := runBounded(bs, tier, seed, scratch)
+		boundedEv = append(boundedEv, map[string]interface{}{"name": bs.Name, "level": "bounded (not a proof)", "bound": bs.Bound, "stands_in_for": bs.StandsInFor,
+			"cases": br.Cases, "ok": br.OK, "wall_s": round2(br.WallS)})
+		if !br.OK {
+			boundedFails = append(boundedFails, br)
+		}
+	}
 	// ---- report ----
 	exit := 0
+	for i, br := range boundedFails {
+		exit = 1
+		os.MkdirAll(replayDir, 0o755)
+		rp := filepath.Join(replayDir, fmt.Sprintf("bounded-%02d-%s.json", i, sanitize(br.Spec.Name)))
+		writeJSON(rp, map[string]interface{}{"property": prop, "obligation": "bounded:" + br.Spec.Name, "bound": br.Spec.Bound, "output": br.Output,
+			"replay_cmd": "GOVC_BOUNDED_N=<n> VERIF_SEED=<seed> go test -overlay … (see /verif/bounded/" + br.Spec.TestFile + ")"})
+		fmt.Printf("VIOLATION property=%s replay=%s\n", prop, rp)
+		fmt.Printf("  bounded stand-in %s failed: %s\n", br.Spec.Name, firstLines(grepLine(br.Output, "BOUNDED-FAIL"), 1))
+	}
 	if len(real) > 0 {
 		exit = 1
 		os.MkdirAll(replayDir, 0o755)
@@ -206,9 +226,10 @@ func runCheck(prop, tier string, seed int, t0 time.Time) int {
 		"known_findings_seen":      knownSeen,
 		"not_proved":               obligNames(failures),
 		"per_query_timeout_s":      timeout,
+		"bounded":                  boundedEv,
 		"explanation":              "Each obligation is a verification condition generated from go/ssa of /repo's working tree for a function under contract (contracts: zz_contracts_verif.go in the package, tag verif); discharged = negated goal unsat.",
 	}
-	ev := evidence{PropertyID: prop, Tier: tier, Seed: seed, Level: "proof", Coverage: cov, Assumptions: trusted, WallS: round2(time.Since(t0).Seconds()), Violations: len(real)}
+	ev := evidence{PropertyID: prop, Tier: tier, Seed: seed, Level: "proof", Coverage: cov, Assumptions: trusted, WallS: round2(time.Since(t0).Seconds()), Violations: len(real) + len(boundedFails)}
 	if err := writeJSON(evPath, ev); err != nil {
 		fmt.Fprintln(os.Stderr, "cannot write evidence:", err)
 		return 1
@@ -359,3 +380,12 @@ func cmdSelftest(args []string) int {
 }
 
 func jsonUnmarshal(b []byte, v interface{}) error { return json.Unmarshal(b, v) }
+
+func grepLine(s, needle string) string {
+	for _, l := range strings.Split(s, "\n") {
+		if strings.Contains(l, needle) {
+			return l
+		}
+	}
+	return ""
+}
